@@ -124,24 +124,34 @@ class Ctx:
     def check_props(self, extra=()):
         """Re-check the property theorems: build the dependencies, then compile Props/<pid>.v afresh and read
         its Print Assumptions output.  Returns True when every theorem compiled."""
-        props = "theories/Props/%s.v" % self.pid
-        src = os.path.join(COQ, props)
-        text = open(src).read()
-        thms = re.findall(r"^\s*(?:Theorem|Lemma|Corollary)\s+([A-Za-z0-9_']+)", text, re.M)
+        import glob as _glob
+        main = "theories/Props/%s.v" % self.pid
+        # part files Props/<pid>_<part>.v hold further theorems of the same property (one owner per file)
+        parts = sorted("theories/Props/" + os.path.basename(f)
+                       for f in _glob.glob(os.path.join(COQ, "theories", "Props", self.pid + "_*.v")))
+        files = [main] + parts
+        thms = []
+        for props in files:
+            text = open(os.path.join(COQ, props)).read()
+            thms += re.findall(r"^\s*(?:Theorem|Lemma|Corollary)\s+([A-Za-z0-9_']+)", text, re.M)
         self.proof_info["obligations"] = len(thms)
         self.proof_info["theorems"] = thms
-        rc, out = self.make([props + "o"] + [e + "o" if e.endswith(".v") else e for e in extra])
+        rc, out = self.make([f + "o" for f in files] + [e + "o" if e.endswith(".v") else e for e in extra])
         if rc != 0:
             self.proof_info["log"] = out[-3000:]
             return False
         outdir = os.path.join(BUILD, "props")
         os.makedirs(outdir, exist_ok=True)
-        cmd = ["coqc"] + COQ_FLAGS + ["-o", os.path.join(outdir, self.pid + ".vo"), src]
-        rc, out = sh(cmd, timeout=600)
-        self.proof_info["checker_cmd"] = "make -C coq %so && coqc -Q coq/theories UPV coq/%s  (Print Assumptions parsed)" % (props, props)
-        if rc != 0:
-            self.proof_info["log"] = out[-3000:]
-            return False
+        out = ""
+        for props in files:
+            src = os.path.join(COQ, props)
+            cmd = ["coqc"] + COQ_FLAGS + ["-o", os.path.join(outdir, os.path.basename(props) + "o"), src]
+            rc, o = sh(cmd, timeout=600)
+            out += o
+            if rc != 0:
+                self.proof_info["log"] = o[-3000:]
+                return False
+        self.proof_info["checker_cmd"] = "make -C coq <Props files>.vo && coqc -Q coq/theories UPV coq/%s  (Print Assumptions parsed)" % " coq/".join(files)
         closed = out.count("Closed under the global context")
         axioms = sorted(set(re.findall(r"^([A-Za-z_][A-Za-z0-9_.']*)\s*:", out, re.M)) - {"Axioms"})
         # everything printed after an "Axioms:" header is an axiom name; keep them all for the evidence
@@ -237,6 +247,22 @@ class Ctx:
 
     def finish(self, coverage, level, assumptions=()):
         """Classify failures against KNOWN_FINDINGS.json, write evidence, print verdict lines, exit."""
+        # extension modules harness/ext/<pid>_<part>.py (one owner each): run(ctx) -> dict of evidence keys; they
+        # add correspondences for model parts added after the property's main module was written
+        import glob as _glob, importlib as _il, traceback as _tb
+        ext_cov = {}
+        for f in sorted(_glob.glob(os.path.join(VERIF, "harness", "ext", self.pid.lower() + "_*.py"))):
+            name = os.path.basename(f)[:-3]
+            try:
+                ext_cov[name] = _il.import_module("harness.ext." + name).run(self)
+            except SystemExit:
+                raise
+            except Exception as e:  # a crashing extension is a broken tie, not a silent pass
+                self.fail("corr", "extension %s crashed: %s" % (name, "".join(_tb.format_exception_only(type(e), e))[:300]),
+                          ["extension-crashed", name], {"traceback": _tb.format_exc()[-2000:]}, False)
+        if ext_cov:
+            coverage = dict(coverage)
+            coverage["extensions"] = ext_cov
         known = self._known()
         violations = []
         hits = {}
